@@ -41,6 +41,8 @@ type (
 		Forall bool
 		Vars   []QVar
 		Body   Expr
+		// optional triggers, Dafny style: `forall x T :: {f(x), g(x)} {h(x)} body` — each group is one multi-pattern
+		Pats [][]Expr
 	}
 	EOld struct{ X Expr }
 	// ETypeLit is a type used as an expression (typeof(x) == T)
@@ -250,8 +252,21 @@ func (p *sparser) expr() Expr {
 			}
 		}
 		p.expect("::")
+		var pats [][]Expr
+		for p.isOp("{") {
+			p.next()
+			var grp []Expr
+			for {
+				grp = append(grp, p.ternary())
+				if !p.accept(",") {
+					break
+				}
+			}
+			p.expect("}")
+			pats = append(pats, grp)
+		}
 		body := p.expr()
-		return &EQuant{fa, vars, body}
+		return &EQuant{fa, vars, body, pats}
 	}
 	return p.ternary()
 }
